@@ -51,6 +51,7 @@ class UnitResult:
         self.exc_paths = 0
         self.gen_s = 0.0
         self.canary = []            # path-condition satisfiability probes
+        self.loopsig = ''           # signature of the cut loops of the function as it is now
 
 
 def _is_stub_object(o):
@@ -194,6 +195,7 @@ def explore(unit, repo):
         for ip, iq, il in unit.inline:
             g, _ = cut.build(os.path.join(repo, ip), iq, il, ns)
         f, nloops = cut.build(os.path.join(repo, unit.path), unit.qualname, unit.loops, ns)
+        res.loopsig = ';'.join('%d:%s' % (k, v) for k, v in sorted(getattr(ns.get('__vc'), 'sigs', {}).items()))
     except Unsupported as ex:
         res.undecided_reason = 'extraction: %s' % ex
         return res
